@@ -814,3 +814,121 @@ def unroll_object_loops(trees):
             if isinstance(n, (ast.FunctionDef, ast.AsyncFunctionDef)):
                 block(n.body, f"{m}:{n.name}")
     return log
+
+
+# ---- list-building loops ---------------------------------------------------------------------------------------------------------
+def loops_to_comprehensions(trees):
+    """`acc = []` .. `for x in L: [if c:] acc.append(e)` is the list `[e for x in L if c]`: one canonical spelling (the comprehension).
+    Only when the loop body is that single statement, the accumulator is a plain name that is fresh (assigned the empty list right
+    before the loop, nothing in between mentions it) and is not read by the loop's own expressions."""
+    log = []
+
+    def empty_list(v):
+        return (isinstance(v, ast.List) and not v.elts) or (isinstance(v, ast.Call) and isinstance(v.func, ast.Name) and v.func.id == "list" and not v.args and not v.keywords)
+
+    def block(stmts, fq):
+        i = 0
+        while i < len(stmts):
+            st = stmts[i]
+            if not isinstance(st, (ast.FunctionDef, ast.AsyncFunctionDef, ast.ClassDef)):
+                for fld in ("body", "orelse", "finalbody"):
+                    blk = getattr(st, fld, None)
+                    if isinstance(blk, list) and blk and isinstance(blk[0], ast.stmt):
+                        block(blk, fq)
+                for hd in getattr(st, "handlers", []) or []:
+                    block(hd.body, fq)
+            if isinstance(st, ast.For) and not st.orelse and len(st.body) == 1 and i > 0:
+                inner = st.body[0]
+                cond = None
+                if isinstance(inner, ast.If) and not inner.orelse and len(inner.body) == 1:
+                    cond, inner = inner.test, inner.body[0]
+                if (isinstance(inner, ast.Expr) and isinstance(inner.value, ast.Call) and isinstance(inner.value.func, ast.Attribute)
+                        and inner.value.func.attr == "append" and isinstance(inner.value.func.value, ast.Name)
+                        and len(inner.value.args) == 1 and not inner.value.keywords):
+                    acc = inner.value.func.value.id
+                    prev = stmts[i - 1]
+                    fresh = (isinstance(prev, ast.Assign) and len(prev.targets) == 1 and isinstance(prev.targets[0], ast.Name)
+                             and prev.targets[0].id == acc and empty_list(prev.value))
+                    exprs = [st.iter, st.target, inner.value.args[0]] + ([cond] if cond is not None else [])
+                    reads = any(isinstance(n, ast.Name) and n.id == acc for e in exprs for n in ast.walk(e))
+                    tnames = {n.id for n in ast.walk(st.target) if isinstance(n, ast.Name)}
+                    later = any(isinstance(n, ast.Name) and n.id in tnames for s_ in stmts[i + 1:] for n in ast.walk(s_))
+                    walrus = any(isinstance(n, (ast.NamedExpr, ast.Yield, ast.YieldFrom, ast.Await)) for e in exprs for n in ast.walk(e))
+                    if fresh and not reads and not later and not walrus:
+                        comp = ast.ListComp(elt=inner.value.args[0], generators=[ast.comprehension(target=st.target, iter=st.iter, ifs=[cond] if cond is not None else [], is_async=0)])
+                        new = ast.Assign(targets=[ast.Name(id=acc, ctx=ast.Store())], value=comp, lineno=st.lineno)
+                        ast.copy_location(new, st)
+                        ast.copy_location(comp, st)
+                        ast.fix_missing_locations(new)
+                        if hasattr(st, "_src"):
+                            new._src = st._src
+                        stmts[i - 1:i + 1] = [new]
+                        log.append((fq, getattr(st, "lineno", 0)))
+                        continue
+            i += 1
+
+    for m, t in trees.items():
+        for n in ast.walk(t):
+            if isinstance(n, (ast.FunctionDef, ast.AsyncFunctionDef)):
+                block(n.body, f"{m}:{n.name}")
+    return log
+
+
+# ---- guard clauses in loops ----------------------------------------------------------------------------------------------------------
+def _negate(test):
+    swap = {ast.In: ast.NotIn, ast.NotIn: ast.In, ast.Is: ast.IsNot, ast.IsNot: ast.Is, ast.Eq: ast.NotEq, ast.NotEq: ast.Eq}
+    if isinstance(test, ast.UnaryOp) and isinstance(test.op, ast.Not):
+        return test.operand
+    if isinstance(test, ast.Compare) and len(test.ops) == 1 and type(test.ops[0]) in swap:
+        return ast.copy_location(ast.Compare(left=test.left, ops=[swap[type(test.ops[0])]()], comparators=test.comparators), test)
+    return ast.copy_location(ast.UnaryOp(op=ast.Not(), operand=test), test)
+
+
+def continue_guards_to_conditionals(trees):
+    """In a loop body, `if c: [A;] continue` followed by REST is `if c: A else: REST` (`if not c: REST` when A is empty): the guard
+    clause and the conditional block are one program; the conditional is the canonical spelling, because there the condition is on the
+    path of every statement it governs."""
+    log = []
+
+    def fix(body, fq):
+        for i, st in enumerate(body):
+            if isinstance(st, ast.If) and st.body and isinstance(st.body[-1], ast.Continue) and not any(
+                    isinstance(n, ast.Continue) for b in st.body[:-1] + st.orelse for n in ast.walk(b)):
+                rest = st.orelse + body[i + 1:]
+                fix(rest, fq)
+                head = st.body[:-1]
+                if head:
+                    new = ast.If(test=st.test, body=head, orelse=rest)
+                elif rest:
+                    new = ast.If(test=_negate(st.test), body=rest, orelse=[])
+                else:
+                    new = None
+                if new is not None:
+                    ast.copy_location(new, st)
+                    if hasattr(st, "_src"):
+                        new._src = st._src
+                    ast.fix_missing_locations(new)
+                body[i:] = [new] if new is not None else []
+                log.append((fq, getattr(st, "lineno", 0)))
+                return
+
+    def block(stmts, fq):
+        for st in stmts:
+            if isinstance(st, (ast.FunctionDef, ast.AsyncFunctionDef, ast.ClassDef)):
+                continue
+            for fld in ("body", "orelse", "finalbody"):
+                blk = getattr(st, fld, None)
+                if isinstance(blk, list) and blk and isinstance(blk[0], ast.stmt):
+                    block(blk, fq)
+            for hd in getattr(st, "handlers", []) or []:
+                block(hd.body, fq)
+            if isinstance(st, (ast.For, ast.While)):
+                fix(st.body, fq)
+                if not st.body:
+                    st.body.append(ast.copy_location(ast.Pass(), st))
+
+    for m, t in trees.items():
+        for n in ast.walk(t):
+            if isinstance(n, (ast.FunctionDef, ast.AsyncFunctionDef)):
+                block(n.body, f"{m}:{n.name}")
+    return log
